@@ -130,6 +130,7 @@ deriving DecidableEq, Repr
 
 inductive Item
   | var (scope : Scope) (name : String) (a : Arg)
+  | varRef (name : String) (ref : String)                     -- `SET name = @@ref`: the current value of another variable
   | names (cs : Option String) (collate : Option String)     -- `none` = DEFAULT
   | charset (cs : Option String)
   | transaction (chars : List (String Ã— V))                   -- already mapped to (variable, value); [] entry = unknown
@@ -155,6 +156,11 @@ def setItem (sch : List Schema) (cs : List String) (defaultCollation : String â†
   | .var _ _ .complex => (st, some .notSupported)          -- expression_to_value raises before the scope is looked at
   | .var .global _ _ => (st, some .notSupported)
   | .var .session n a => setAll sch cs st [(n, a)]
+  | .varRef n m =>
+    -- `_replace_variables_middleware` puts the current value of `m` in place of `@@m` before the assignment is evaluated
+    match get sch st m with
+    | .ok v => setAll sch cs st [(n, .val v)]
+    | .error e => (st, some e)
   | .names none _ => setAll sch cs st [("character_set_client", .dflt), ("character_set_connection", .dflt),
       ("character_set_results", .dflt), ("collation_connection", .dflt)]
   | .names (some c) coll =>
@@ -179,6 +185,26 @@ def setStmt (sch : List Schema) (cs : List String) (dc : String â†’ Option Strin
   | it :: rest => match setItem sch cs dc st it with
     | (st', none) => setStmt sch cs dc st' rest
     | (st', some e) => (st', some e)
+
+/-- `_replace_variables_middleware` runs before `_set_middleware`: every `@@ref` on a right-hand side is replaced by the
+    value the variable has when the statement starts; an unknown one fails the whole statement before anything is assigned -/
+def resolveRefs (sch : List Schema) (st : Store) : List Item â†’ Except Err (List Item)
+  | [] => .ok []
+  | .varRef n m :: rest =>
+    match get sch st m, resolveRefs sch st rest with
+    | .ok v, .ok r => .ok (.var .session n (.val v) :: r)
+    | .error e, _ => .error e
+    | _, .error e => .error e
+  | it :: rest =>
+    match resolveRefs sch st rest with
+    | .ok r => .ok (it :: r)
+    | .error e => .error e
+
+/-- a SET statement as the session runs it: references resolved first, then the items in order -/
+def setStmtR (sch : List Schema) (cs : List String) (dc : String â†’ Option String) (st : Store) (items : List Item) : Store Ã— Option Err :=
+  match resolveRefs sch st items with
+  | .ok its => setStmt sch cs dc st its
+  | .error e => (st, some e)
 
 /-! ### SET_VAR hints -/
 
